@@ -111,6 +111,8 @@ class _SourceFileParams(_FileParamsBase):
     def reset(self) -> None:
         self.empty_file = False
         super().reset()
+        # The source handler relies on an integer file size, like after construction.
+        self.file_size = 0
 
 
 @dataclass
